@@ -2,7 +2,7 @@
 import itertools
 import sys
 
-from mc import core, lib
+from mc import core, hist, lib
 
 ENGINE = "E1-sweep"
 RULE = ("every base sequence (<=3 notes over 2 pitches x 1-2 channels, with/without a time and a key signature) x "
@@ -14,7 +14,7 @@ ASSUMPTIONS = ["with ignore_channel set, only pairs with identical channel layou
                "single-channel sequence are demanded (the statement defines nothing else)"]
 REQUIRED_FLAGS = ["perturb:pitch", "perturb:onset", "perturb:length", "perturb:velocity", "perturb:channel",
                   "perturb:ts_value", "perturb:ts_tick", "perturb:ks_value", "perturb:ks_tick", "perturb:relabel",
-                  "identity:copy", "identity:order", "identity:relative", "expected_equal_with_flag", "expected_unequal"]
+                  "identity:copy", "identity:order", "identity:relative", "identity:edited", "identity:history", "expected_equal_with_flag", "expected_unequal"]
 FLAGSETS = list(itertools.product((False, True), repeat=4))  # channel, time_sig, key_sig, velocity
 
 
@@ -47,7 +47,7 @@ def context(tier, seed):
 
 
 def units(ctx):
-    return list(range(len(bases(ctx))))
+    return list(range(len(bases(ctx)))) + list(hist.hist_units())
 
 
 def variants(ns, ev, ctx):
@@ -87,7 +87,20 @@ def variants(ns, ev, ctx):
 
 
 def gen_cases(unit, ctx):
+    if isinstance(unit, tuple):
+        for h in hist.hist_of_unit(unit):
+            yield {"seed": unit[1], "build": unit[2], "hist": h, "kind": "identity:history"}
+        return
     ns, ev = bases(ctx)[unit]
+    # the same events reached by editing another sequence in place through messages_abs() (pitch / onset edits that
+    # change the canonical order), with no normalising operation before the comparison
+    for i, n in enumerate(ns):
+        for kind, m in (("pitch", (n[0], n[1], n[2] + 7, n[3], n[4])), ("pitch", (n[0], n[1], n[2] - 7, n[3], n[4])),
+                        ("onset", (n[0] + 9, n[1], n[2], n[3], n[4]))):
+            start = ns[:i] + [m] + ns[i + 1:]
+            if lib.well_formed(start):
+                yield {"base": [list(x) for x in ns], "base_ev": [list(e) for e in ev], "kind": "identity:edited",
+                       "notes": [list(x) for x in start], "events": [list(e) for e in ev], "build": "edit", "order": [i, kind]}
     for kind, ns2, ev2, build, order in variants(ns, ev, ctx):
         yield {"base": [list(n) for n in ns], "base_ev": [list(e) for e in ev], "kind": kind,
                "notes": [list(n) for n in ns2], "events": [list(e) for e in ev2], "build": build, "order": order}
@@ -96,6 +109,13 @@ def gen_cases(unit, ctx):
 def construct(notes, events, build, order, ch_events=0):
     if build == "rel":
         return lib.seq_rel(notes, events)
+    if build == "edit":
+        from scoda.enumerations.message_type import MessageType as MT
+        i, what = order
+        start = [list(x) for x in notes]
+        s = lib.seq_abs(start, events)
+        # `notes` is the starting point; the caller passes the target (base) separately through `edit_to`
+        return s
     if build == "perm":
         from scoda.sequences.sequence import Sequence
         s = Sequence()
@@ -122,7 +142,34 @@ def canon(notes, events, chan_of_events, fl):
     return N, E
 
 
+def check_history_case(case, ctx):
+    R = core.Res()
+    live = hist.live_case(case, R, ctx["p"], *ctx["ch"], hp=ctx["p"] - 20)
+    if live is None:
+        return R
+    a, notes, events, dur = live
+    R.flags.append("identity:history")
+    b = lib.seq_abs(notes, events, dur)
+    n = 0
+    for fl in FLAGSETS:
+        for x, y, nm in ((a, b, "live.equals(rebuilt)"), (b, a, "rebuilt.equals(live)")):
+            got = x.equals(y, ignore_channel=fl[0], ignore_time_signature=fl[1], ignore_key_signature=fl[2], ignore_velocity=fl[3])
+            n += 1
+            if got is not True:
+                R.bad("reports_unequal_but_same:history", f"{nm} flags {fl} returned {got}; content {notes} {events}")
+    if notes:
+        c = lib.seq_abs([[notes[0][0], notes[0][1], notes[0][2] + 1] + list(notes[0][3:])] + notes[1:], events, dur)
+        if lib.well_formed([[notes[0][0], notes[0][1], notes[0][2] + 1] + list(notes[0][3:])] + notes[1:]) and (a.equals(c) or c.equals(a)):
+            R.bad("reports_equal_but_differs:history", f"a pitch differs yet equals is True; content {notes}")
+    R.transitions = R.validated = n
+    R.outcome = "identity:history"
+    R.tags = {"kind": "identity:history"}
+    return R
+
+
 def check_case(case, ctx):
+    if "hist" in case:
+        return check_history_case(case, ctx)
     R = core.Res()
     bn, be, kind = case["base"], case["base_ev"], case["kind"]
     a = construct(bn, be, "abs", None)
@@ -136,6 +183,16 @@ def check_case(case, ctx):
         vn = case["notes"]
         b = construct(vn, case["events"], case["build"], case["order"])
         vev_ch = 0
+        if case["build"] == "edit":
+            from scoda.enumerations.message_type import MessageType as MT
+            i, what = case["order"]
+            src, dst = vn[i], bn[i]
+            for m in b.messages_abs():
+                if m.message_type in (MT.NOTE_ON, MT.NOTE_OFF) and m.note == src[2] and m.channel == src[3] and \
+                        m.time in (src[0], src[0] + src[1]):
+                    m.note = dst[2]
+                    m.time = dst[0] if m.message_type is MT.NOTE_ON else dst[0] + dst[1]
+            vn = bn      # after the edit the variant holds exactly the base's events
     R.flags.append(kind)
     R.nontrivial = kind.startswith("perturb")
     same_layout = [n[3] for n in sorted(bn)] == [n[3] for n in sorted(vn)] and vev_ch == 0
